@@ -204,7 +204,18 @@ pub fn run(ctx: &Ctx) -> Report {
     let n = if ctx.want("docs") { ctx.count(600_000, 3_000_000) } else { 0 };
     for k in 0..n {
         let t = gen_truth(&mut r);
-        let doc = build_doc(&t, &mut r, true);
+        let mut doc = build_doc(&t, &mut r, true);
+        // data after the top-level dictionary: scalars, a list, or a second complete torrent
+        // (two .torrent files concatenated); the model is the first dictionary's
+        // (only behind a dictionary that is acceptable by itself: which dictionary counts when
+        // the first one is refused is not something the property settles)
+        let alone_ok = matches!(catch(|| Metainfo::from_bencode(&doc)), Ok(Ok(_)));
+        match r.below(12) {
+            0 => doc.extend_from_slice(b"i42e"),
+            1 => doc.extend_from_slice(b"4:spamli1ee"),
+            2 | 3 if alone_ok => { let t2 = gen_truth(&mut r); let d2 = build_doc(&t2, &mut r, false); doc.extend_from_slice(&d2); rep.count("documents_followed_by_a_second_torrent", 1); }
+            _ => (),
+        }
         rep.evaluations += 1;
         let parsed = match catch(|| Metainfo::from_bencode(&doc)) {
             Err(p) => {
